@@ -37,6 +37,8 @@ ZPrimary == <<ZL(D1, T1, Sub1, 0, "+00:00"), ZL(D1, T1, Sub1, 19800, "+05:30"), 
 ZOtherQ == <<ZL(D2, T2, 999999999, 50400, "+14:00"), ZL(D3, T0, 1, -60, "-00:01"), ZL(D5, T1, Sub1, 3600, "+01:00"),
              ZN(D1, T1, Sub1, "America/New_York"), ZN(Date(2021, 7, 1), T2, 999999999, "Europe/London"),
              ZN(Date(2021, 3, 14), TimeRec(6, 59, 59, 0, 0, 0), 999999999, "America/New_York"),
+             \* 01:30:00 EST on the day the clocks go back: the second occurrence of that wall-clock time
+             ZN(Date(2021, 11, 7), TimeRec(6, 30, 0, 0, 0, 0), 0, "America/New_York"),
              WithCal(ZL(D1, T1, Sub1, 0, "+00:00"), "hebrew")>>
 ZOtherT == <<ZL(D4, T1, Sub1, -43200, "-12:00"), ZL(D6, T1, Sub1, 0, "+00:00"), ZL(D7, T2, 5, 34200, "+09:30"),
              ZN(D1, T1, Sub1, "Asia/Kolkata"), ZN(Date(2021, 10, 3), T1, Sub1, "Australia/Lord_Howe"),
@@ -141,7 +143,8 @@ PoolOf(rs, quick, sig, c) ==
   CASE sig = "recv" -> <<NoArgs>>
     \* transitions of named zones are "Not yet implemented" in the bundled provider (out of scope): offset zones only
     [] sig = "recv+dir" -> IF Fixed(c.v) /\ c.v.tz # "UTC" THEN <<[dir |-> "next"], [dir |-> "previous"]>> ELSE <<>>
-    [] sig = "recv+time" -> Map(<<T1, T2, T0, T3>>, LAMBDA t : [time |-> t])
+    \* (01:30:00 is the wall-clock time the fold receiver already shows: the result is the FIRST occurrence, not the receiver)
+    [] sig = "recv+time" -> Map(<<T1, T2, T0, T3, TimeRec(1, 30, 0, 0, 0, 0)>>, LAMBDA t : [time |-> t])
     [] sig = "recv+time?" -> <<NoArgs>> \o Map(<<T1, T2>>, LAMBDA t : [time |-> t])
     [] sig = "recv+dur+ovf?" -> WithOptOvf(Map(DursFor(c.t), LAMBDA d : [dur |-> d]))
     [] sig = "recv+dur+ovf" -> WithOvf(Map(DursFor(c.t), LAMBDA d : [dur |-> d]))
